@@ -29,6 +29,7 @@ META = {
 COEFS = (-3, -1, 1, 2)
 N = 4
 MAX_ANC = 9
+ALLCONV_BITS = 5      # convert_solution is called on all 2^(n+a) assignments of D when n + a <= this
 TYPES = ("PUBO", "PUSO", "PCBO", "PCSO")
 QUICK_SCHEME = {"PUBO": "int", "PUSO": "str", "PCBO": "gap", "PCSO": "tuple"}
 PENALTIES = ("default", "abs", "abs+1", "bigconst", "toosmall")
@@ -237,6 +238,23 @@ def check(case, st):
                             val, _w = call(M.value, r)
                             if isinstance(val, Raised) or abs(val - mmin) > 1e-9:
                                 v("argmin-not-argmin", "minimiser %r of D converts to %r with M = %r, min M = %r" % (sol, r, val, mmin))
+                                break
+                    # (v) convert_solution on EVERY assignment of D (not only arg-mins), with the `spin` argument left at
+                    # its default whenever the assignment itself says what it is (a 0 for boolean forms, a -1 for spin forms):
+                    # the answer must be the assignment's first n values in the model's own domain
+                    if n + a <= ALLCONV_BITS:
+                        for bits in range(1 << (n + a)):
+                            s = rp.assignment(bits, dlabels, tspin)
+                            want = rp.assignment(bits & ((1 << n) - 1), list(range(n)), spin)
+                            want = {inv[i]: val for i, val in want.items()}
+                            unambiguous = any(val != 1 for val in s.values())
+                            r, _w = call(M.convert_solution, s) if unambiguous else call(M.convert_solution, s, tspin)
+                            st.transitions += 1
+                            if isinstance(r, Raised):
+                                v("convert_solution-raises-" + r.kind, "convert_solution(%r) raised %r" % (s, r.exc))
+                                break
+                            if r != want:
+                                v("convert_solution-any-assignment", "convert_solution(%r%s) = %r, expected %r" % (s, "" if unambiguous else ", spin=%s" % tspin, r, want))
                                 break
     if case["constraint"] == 0:
         check_again_after_edit(case, st)
